@@ -3,7 +3,8 @@ package manager
 // Bounded stand-in for C05 (labelled bounded, never counted as proved): the indexed payload equals what the
 // endpoints exchanged on the wire. Conversations with known content are generated - TCP connections with a
 // complete handshake, data in both directions cut into segments, some segments retransmitted, neighbouring
-// segments of one direction swapped, a FIN exchange or not; UDP flows - interleaved with each other, cut
+// segments of one direction swapped, a FIN exchange or not, some with minutes between packets; UDP flows -
+// interleaved with each other, cut
 // chronologically into capture files and imported in one or several batches through a real Manager. Every
 // conversation must be visible as exactly one stream with the right endpoints and protocol, and its payload
 // per direction, and the order of direction changes, must be the application bytes that were sent.
@@ -113,7 +114,22 @@ func TestC05Standin(t *testing.T) {
 			}
 			convs = append(convs, c)
 			at := time.Duration(rng.Intn(5000)) * time.Millisecond
-			step := func() time.Duration { at += time.Duration(1+rng.Intn(300)) * time.Millisecond; return at }
+			// a quarter of the conversations are long lived: minutes between two packets (always less than the
+			// 5 minute idle limit), more than the limit in total
+			slow := rng.Intn(4) == 0
+			step := func() time.Duration {
+				if slow && rng.Intn(3) == 0 {
+					at += time.Duration(100+rng.Intn(140)) * time.Second
+				} else {
+					at += time.Duration(1+rng.Intn(300)) * time.Millisecond
+				}
+				return at
+			}
+			if slow {
+				for k := 2 + rng.Intn(4); k > 0; k-- {
+					c.messages = append(c.messages, words[rng.Intn(len(words))])
+				}
+			}
 			if !c.tcp {
 				c.serverFirst = false
 				for k, m := range c.messages {
